@@ -58,6 +58,9 @@ impl SignatureConverter<'_> {
     }
 
     fn generate_params(&self, sig: &mut syn::Signature, receiver_generation: ReceiverGeneration) {
+        // The lifetime of the dependency reference, which `__impl` has to carry as well
+        let mut deps_lifetime = None;
+
         match receiver_generation {
             ReceiverGeneration::Insert => {
                 sig.inputs.insert(
@@ -76,6 +79,7 @@ impl SignatureConverter<'_> {
                         syn::Type::Reference(type_reference) => {
                             let and_token = type_reference.and_token;
                             let lifetime = type_reference.lifetime.clone();
+                            deps_lifetime = lifetime.clone();
 
                             *input = self
                                 .gen_first_receiver(pat_type.span(), Some((and_token, lifetime)));
@@ -93,7 +97,7 @@ impl SignatureConverter<'_> {
 
         if matches!(self.impl_receiver_kind, ImplReceiverKind::DynamicImpl) {
             sig.inputs
-                .insert(1, self.gen_impl_receiver(Span::call_site()));
+                .insert(1, self.gen_impl_receiver(Span::call_site(), deps_lifetime));
         }
     }
 
@@ -106,7 +110,10 @@ impl SignatureConverter<'_> {
             ImplReceiverKind::SelfRef | ImplReceiverKind::DynamicImpl => {
                 self.gen_self_receiver(span, reference)
             }
-            ImplReceiverKind::StaticImpl => self.gen_impl_receiver(span),
+            ImplReceiverKind::StaticImpl => self.gen_impl_receiver(
+                span,
+                reference.and_then(|(_, lifetime)| lifetime),
+            ),
         }
     }
 
@@ -130,10 +137,10 @@ impl SignatureConverter<'_> {
         })
     }
 
-    fn gen_impl_receiver(&self, _: Span) -> syn::FnArg {
+    fn gen_impl_receiver(&self, _: Span, lifetime: Option<syn::Lifetime>) -> syn::FnArg {
         let entrait = &self.crate_idents.entrait;
         syn::parse_quote! {
-            __impl: &::#entrait::Impl<EntraitT>
+            __impl: & #lifetime ::#entrait::Impl<EntraitT>
         }
     }
 
